@@ -47,7 +47,7 @@
 (assert (! (forall ((s BSeq) (n Int)) (! (=> (<= (len s) n) (= (drop s n) empty)) :pattern ((drop s n)))) :named ax_drop_all))
 (assert (! (forall ((a BSeq) (b BSeq) (n Int)) (! (= (take (cat a b) n) (ite (<= n (len a)) (take a n) (cat a (take b (- n (len a)))))) :pattern ((take (cat a b) n)))) :named ax_take_cat))
 (assert (! (forall ((a BSeq) (b BSeq) (n Int)) (! (= (drop (cat a b) n) (ite (<= n (len a)) (cat (drop a n) b) (drop b (- n (len a))))) :pattern ((drop (cat a b) n)))) :named ax_drop_cat))
-(assert (! (forall ((s BSeq) (n Int)) (! (= (cat (take s n) (drop s n)) s) :pattern ((take s n)) :pattern ((drop s n)))) :named ax_take_drop))
+(assert (! (forall ((s BSeq) (n Int)) (! (= (cat (take s n) (drop s n)) s) :pattern ((cat (take s n) (drop s n))))) :named ax_take_drop))
 (assert (! (forall ((s BSeq) (m Int) (n Int)) (! (=> (and (<= 0 m) (<= 0 n)) (= (drop (drop s m) n) (drop s (+ m n)))) :pattern ((drop (drop s m) n)))) :named ax_drop_drop))
 (assert (! (forall ((s BSeq) (m Int) (n Int)) (! (=> (<= n m) (= (take (take s m) n) (take s n))) :pattern ((take (take s m) n)))) :named ax_take_take))
 (assert (! (forall ((s BSeq) (i Int) (v Int)) (! (=> (and (<= 0 i) (< i (len s))) (= (upd s i v) (cat (take s i) (cat (unit v) (drop s (+ i 1)))))) :pattern ((upd s i v)))) :named ax_upd_split))
@@ -107,6 +107,9 @@
 (declare-fun sbox (BSeq) Int)
 (declare-fun sunbox (Int) BSeq)
 (assert (! (forall ((s BSeq)) (! (= (sunbox (sbox s)) s) :pattern ((sbox s)))) :named ax_box))
+(assert (! (forall ((x Int)) (! (= (sbox (sunbox x)) x) :pattern ((sunbox x)))) :named ax_unbox))
+(declare-fun minwidth (Int) Int)
+(assert (! (forall ((t Int)) (! (<= 0 (minwidth t)) :pattern ((minwidth t)))) :named ax_minwidth_nonneg))
 (declare-fun Wd (Int Int) BSeq)             ; wire image of a message part: type tag, abstract value
 (assert (! (forall ((o Int) (w Int) (x Int)) (! (= (elem (k_enc o w) x) (enc o w x)) :pattern ((elem (k_enc o w) x)))) :named ax_elem_enc))
 (assert (! (forall ((n Int) (p Int) (sd Int) (x Int)) (! (= (elem (k_fix n p sd) x) (fixed (sunbox x) n p sd)) :pattern ((elem (k_fix n p sd) x)))) :named ax_elem_fix))
